@@ -24,7 +24,11 @@ def run(ctx, escalated=False):
     cases = execprop.run(ctx, "C06", escalated, finish=False)
     extra = []
     for k in range(120 if quick else 3000):
-        r = condsim.run(ctx, ctx.rng, k, entry=("direct", "fg", "bg")[k % 3], timeouts=0.45, max_polls=80)
+        # every fourth study keeps all its scripts in one temporary directory under hashed names (--usetmp
+        # --hashws): instances of different steps then share script file names, and a restart must still
+        # be submitted with the step's own restart script
+        r = condsim.run(ctx, ctx.rng, k, entry=("direct", "fg", "bg")[k % 3], timeouts=0.45, max_polls=80,
+                        force={"use_tmp": True, "hash_ws": True} if k % 4 == 3 else None)
         if r is None:
             continue
         extra.append(Case({"kind": "conductor", "spec": r["spec"], "polls": r["polls"], "returned": r["ret"],
@@ -33,6 +37,23 @@ def run(ctx, escalated=False):
         ctx.count("conductor-rlimit:%d" % r["options"]["rlimit"])
         if k % 30 == 29:
             shutil.rmtree(os.path.join(ctx.scratch, "cond"), ignore_errors=True)
+    # two independent steps expanded over the same parameter, both with a restart command, scripts in one
+    # temporary directory under hashed names: the two share their script file names; whichever times out
+    # is resubmitted with its own restart command
+    shared = {"description": {"name": "shared", "description": "script names shared between steps"},
+              "global.parameters": {"X": {"values": [1, 2], "label": "X.%%"}},
+              "study": [{"name": nm, "description": "d",
+                         "run": {"cmd": "%s $(X)" % nm, "restart": "%s --again $(X)" % nm}}
+                        for nm in ("sim", "scan", "probe")]}
+    for k in range(6 if quick else 60):
+        r = condsim.run(ctx, ctx.rng, "sh%d" % k, entry=("direct", "fg", "bg")[k % 3], timeouts=0.6, max_polls=80,
+                        force={"use_tmp": True, "hash_ws": True, "rlimit": 2}, spec=shared)
+        if r is None:
+            continue
+        extra.append(Case({"kind": "conductor-shared-script-names", "spec": r["spec"], "polls": r["polls"],
+                           "returned": r["ret"], "entry": r["entry"], "options": r["options"]}, [], [],
+                          r["mon"]["C06"][:3], True))
+        ctx.count("conductor-shared-script-names")
     import scripted as S
     S.install()
     cases = cases + extra
